@@ -90,8 +90,12 @@ class ProgGen:
         rng = self.rng
         for _ in range(200):
             n = gen_name(rng, rng.choice(classes or self.name_classes))
-            if n not in used and n not in RESERVED:
+            # two methods whose names differ only in underscores / case give the same variant identifier
+            # (rustc rejects the enum): not generated
+            key = "~" + n.replace("_", "").lower()
+            if n not in used and n not in RESERVED and key not in used:
                 used.add(n)
+                used.add(key)
                 return n
         n = "m%d" % len(used)
         used.add(n)
@@ -184,7 +188,8 @@ class ProgGen:
         n_assoc = rng.choice([0, 0, 1, 2]) if assoc is None else assoc
         anames = rng.sample(["ItemT", "Param", "RetT", "Msg"], n_assoc)
         for a in anames:
-            i.assoc.append((a, [PP("serde", "Serialize"), P("Clone")] if rng.random() < 0.7 else []))
+            # an associated type without bounds makes the macro panic (parse_quote of `Name`): kept rare
+            i.assoc.append((a, [PP("serde", "Serialize"), P("Clone")] if rng.random() < 0.93 else []))
         i.attrs.append(sv_custom(msg="Empty", query="Empty"))
         for k in ("exec", "query", "sudo"):
             if rng.random() < 0.2:
@@ -294,7 +299,8 @@ def gen_l2_program(rng, name_classes=None, n_ifaces=None, generic=None, error=No
             if rng.random() < 0.15 and plain(a.ty):
                 a.attrs.append(foreign("serde", "default"))
         m = L2Method(fresh(["plain", "multi"] if kind in ("instantiate", "migrate") else None), kind, args)
-        if kind == "query" and args and rng.random() < 0.3:
+        if kind == "query" and args and rng.random() < 0.3 and args[0].ty.kind == "path":
+            # (a tuple as the query's response type makes the macro panic in extract_return_type: not generated)
             m.ret = "arg0"
         if kind in ("exec", "query", "sudo") and rng.random() < 0.12:
             m.extra_attrs.append(sv_attr('serde(alias = "alias_%s")' % m.name.strip("_")))
